@@ -4,6 +4,8 @@ import (
 	"fmt"
 	"strings"
 
+	"google.golang.org/protobuf/proto"
+	"google.golang.org/protobuf/types/descriptorpb"
 	"pgregory.net/rapid"
 )
 
@@ -23,22 +25,81 @@ func goCamel(s string) string { return strings.ToLower(camel(s)) }
 //
 //	"sint_oneof"  – sint32/sint64 members of a oneof
 //	"oneof_method_name" – oneofs named after protoreflect.Message methods
+//
+// Random units come in pairs: unit 2k+1 imports unit 2k and uses its messages
+// and enums in every position; half of the time it lives in the SAME Go
+// package as unit 2k (its own .proto file and proto package, sorted before or
+// after its sibling), otherwise in a Go package of its own.
 func RandomUnit(seed uint64, idx int, avoid map[string]bool) *Unit {
 	name := fmt.Sprintf("rnd%d", idx)
-	g := rapid.Custom(func(t *rapid.T) *Unit { return drawUnit(t, name, avoid) })
+	var prev *Unit
+	if idx%2 == 1 {
+		prev = RandomUnit(seed, idx-1, avoid)
+	}
+	g := rapid.Custom(func(t *rapid.T) *Unit { return drawUnit(t, name, avoid, prev) })
 	// Example is a pure function of its seed argument.
 	return g.Example(int(seed*1000003 + uint64(idx)*7919 + 1))
 }
 
-func drawUnit(t *rapid.T, name string, avoid map[string]bool) *Unit {
+// declared lists the full names of the messages (map entries excluded) and
+// enums a file declares.
+func declared(fp *descriptorpb.FileDescriptorProto) (msgs, enums []string) {
+	var walk func(prefix string, m *descriptorpb.DescriptorProto)
+	walk = func(prefix string, m *descriptorpb.DescriptorProto) {
+		if m.GetOptions().GetMapEntry() {
+			return
+		}
+		full := prefix + "." + m.GetName()
+		msgs = append(msgs, full)
+		for _, e := range m.EnumType {
+			enums = append(enums, full+"."+e.GetName())
+		}
+		for _, n := range m.NestedType {
+			walk(full, n)
+		}
+	}
+	for _, e := range fp.EnumType {
+		enums = append(enums, fp.GetPackage()+"."+e.GetName())
+	}
+	for _, m := range fp.MessageType {
+		walk(fp.GetPackage(), m)
+	}
+	return
+}
+
+func drawUnit(t *rapid.T, name string, avoid map[string]bool, prev *Unit) *Unit {
 	u, f := unit(name, "random schema")
+	// type-name prefix: siblings of one Go package must not declare the same Go identifiers
+	tp := ""
+	var prevMsgs, prevEnums []T
+	if prev != nil {
+		pm, pe := declared(prev.File.P)
+		for _, n := range pm {
+			prevMsgs = append(prevMsgs, M(n))
+		}
+		for _, n := range pe {
+			prevEnums = append(prevEnums, E(n))
+		}
+		if rapid.Bool().Draw(t, "samePackage") {
+			tp = "S"
+			fname := "verif/" + name + ".proto"
+			if rapid.Bool().Draw(t, "sortsFirst") {
+				fname = "verif/a_" + name + ".proto" // its generated file is initialised before its sibling's
+			}
+			f = NewFile(fname, "verif."+name, prev.File.P.GetOptions().GetGoPackage())
+			u = &Unit{Name: name, File: f, Label: []string{"random schema", "sibling of " + prev.Name + " in one Go package (" + fname + ")"}}
+		} else {
+			u.Label = append(u.Label, "imports "+prev.Name+" across Go packages")
+		}
+		f.P.Dependency = append(f.P.Dependency, prev.File.P.GetName())
+	}
 	pkg := f.P.GetPackage()
 
 	// enums
 	nEnum := rapid.IntRange(1, 3).Draw(t, "nEnum")
 	var enums []T
 	for e := 0; e < nEnum; e++ {
-		en := fmt.Sprintf("En%d", e)
+		en := fmt.Sprintf("%sEn%d", tp, e)
 		nv := rapid.IntRange(1, 5).Draw(t, "nVal")
 		vals := []interface{}{strings.ToUpper(en) + "_V0", 0}
 		used := map[int]bool{0: true}
@@ -64,7 +125,7 @@ func drawUnit(t *rapid.T, name string, avoid map[string]bool) *Unit {
 			parent := msgs[rapid.IntRange(0, len(msgs)-1).Draw(t, "parent")]
 			mm = parent.Nested(fmt.Sprintf("N%d", m))
 		} else {
-			mm = f.Msg(fmt.Sprintf("M%d", m))
+			mm = f.Msg(fmt.Sprintf("%sM%d", tp, m))
 		}
 		msgs = append(msgs, mm)
 		refs = append(refs, M(mm.Full()))
@@ -81,8 +142,20 @@ func drawUnit(t *rapid.T, name string, avoid map[string]bool) *Unit {
 	wkt := []string{"google.protobuf.Timestamp", "google.protobuf.Any", "google.protobuf.Duration"}
 	usedWKT := map[string]bool{}
 
+	usedPrev := false
 	numGen := rapid.OneOf(rapid.IntRange(1, 40), rapid.SampledFrom(BoundaryNumbers), rapid.IntRange(1, 536870911))
 	drawType := func(allowMsg bool) T {
+		if prev != nil && rapid.IntRange(0, 3).Draw(t, "fromImport") == 0 {
+			// a type of the imported unit (always drawn; the import is then used)
+			if allowMsg && len(prevMsgs) > 0 && (len(prevEnums) == 0 || rapid.Bool().Draw(t, "importedMsg")) {
+				usedPrev = true
+				return rapid.SampledFrom(prevMsgs).Draw(t, "pmsg")
+			}
+			if len(prevEnums) > 0 {
+				usedPrev = true
+				return rapid.SampledFrom(prevEnums).Draw(t, "penum")
+			}
+		}
 		switch c := rapid.IntRange(0, 9).Draw(t, "tclass"); {
 		case c <= 5:
 			return S(rapid.SampledFrom(ScalarKinds).Draw(t, "kind"))
@@ -187,6 +260,49 @@ func drawUnit(t *rapid.T, name string, avoid map[string]bool) *Unit {
 			f.P.Dependency = append(f.P.Dependency, "google/protobuf/any.proto")
 		case "google.protobuf.Duration":
 			f.P.Dependency = append(f.P.Dependency, "google/protobuf/duration.proto")
+		}
+	}
+	// services now and then (they only show in the registered descriptor)
+	nSvc := rapid.IntRange(0, 2).Draw(t, "nSvc")
+	for sv := 0; sv < nSvc; sv++ {
+		svc := &descriptorpb.ServiceDescriptorProto{Name: proto.String(fmt.Sprintf("%sSvc%d", tp, sv))}
+		nMeth := rapid.IntRange(0, 4).Draw(t, "nMeth")
+		pool := append(append([]T{}, refs...), prevMsgs...)
+		for mi := 0; mi < nMeth; mi++ {
+			in := rapid.SampledFrom(pool).Draw(t, "in")
+			outT := rapid.SampledFrom(pool).Draw(t, "out")
+			if prev != nil && (strings.HasPrefix(in.Ref, prev.File.P.GetPackage()+".") || strings.HasPrefix(outT.Ref, prev.File.P.GetPackage()+".")) {
+				usedPrev = true
+			}
+			md := &descriptorpb.MethodDescriptorProto{Name: proto.String(fmt.Sprintf("Call%d", mi)), InputType: proto.String("." + in.Ref), OutputType: proto.String("." + outT.Ref)}
+			// an explicit "false" is not kept by descriptor round trips: set only when true
+			if rapid.IntRange(0, 3).Draw(t, "cs") == 0 {
+				md.ClientStreaming = proto.Bool(true)
+			}
+			if rapid.IntRange(0, 3).Draw(t, "ss") == 0 {
+				md.ServerStreaming = proto.Bool(true)
+			}
+			svc.Method = append(svc.Method, md)
+		}
+		f.P.Service = append(f.P.Service, svc)
+	}
+	if prev != nil && !usedPrev {
+		// an unused import is legal but uninteresting: use it once
+		num := 18999
+		for taken := true; taken; {
+			taken = false
+			for _, fd := range msgs[0].P.Field {
+				if int(fd.GetNumber()) == num {
+					taken = true
+					num--
+				}
+			}
+		}
+		switch {
+		case len(prevMsgs) > 0:
+			msgs[0].F("imported_once", num, prevMsgs[0])
+		case len(prevEnums) > 0:
+			msgs[0].F("imported_once", num, prevEnums[0])
 		}
 	}
 	sortStrings(f.P.Dependency)
